@@ -81,6 +81,10 @@ fn fp_panic_outcome(p: &PanicInfo, what: &str) -> Outcome {
         "undecodable" => Outcome::skip("exact oracle: constant outside the known cyclotomic grid (not judged)"),
         "ambiguous" => Outcome::skip("exact oracle: ambiguous constant (not judged)"),
         "forbidden" => Outcome::bad(format!("portable code used a non-ring operation on the element type during {}: {}", what, p.msg)),
+        "fabricated" => Outcome::bad(format!(
+            "portable code handed the element type a value that none of its operations produced ({}): it fabricates elements from raw bytes instead of using zero()/one()/from_*/arithmetic: {}",
+            what, p.msg
+        )),
         _ => Outcome::bad(format!("{} panicked for the prime-field element type: {} @ {}", what, p.msg, p.loc)),
     }
 }
@@ -146,7 +150,7 @@ pub fn k_exact(case: &Case) -> Outcome {
     }
     let ctor_divs = gfp::divs();
     let inverse = case.dir == Dir::Inv;
-    let zero = Complex { re: Fp(0), im: Fp(0) };
+    let zero = Complex { re: Fp::new(0), im: Fp::new(0) };
     let mut st = Stream(mix(case.input.seed, 0xabc));
     let k = case.chunks.max(1);
     // inputs: whole basis when small, plus random vectors
@@ -168,7 +172,7 @@ pub fn k_exact(case: &Case) -> Outcome {
         let mut chunks_c2: Vec<Vec<C2>> = vec![];
         for c in 0..k {
             let ch: Vec<C2> = (0..n).map(|j| v[(j + c) % n]).collect();
-            input.extend(ch.iter().map(|e| Complex { re: Fp(e.re), im: Fp(e.im) }));
+            input.extend(ch.iter().map(|e| Complex { re: Fp::new(e.re), im: Fp::new(e.im) }));
             chunks_c2.push(ch);
         }
         let before = gfp::divs();
@@ -180,7 +184,11 @@ pub fn k_exact(case: &Case) -> Outcome {
             return Outcome::bad(format!("portable code performed {} division(s) on the element type while processing (only ring operations are allowed there)", gfp::divs() - before));
         }
         for (c, ch) in chunks_c2.iter().enumerate() {
-            let got: Vec<C2> = out[c * n..(c + 1) * n].iter().map(|e| C2 { re: e.re.0, im: e.im.0 }).collect();
+            // reading the residues validates every output word (a fabricated word panics with VF-FABRICATED)
+            let got: Vec<C2> = match catch(|| out[c * n..(c + 1) * n].iter().map(|e| C2 { re: e.re.val(), im: e.im.val() }).collect::<Vec<C2>>()) {
+                Ok(g) => g,
+                Err(pn) => return fp_panic_outcome(&pn, "reading the output"),
+            };
             let ok = if n <= 1024 {
                 match gfp::exact_dft(ch, inverse) {
                     Some(want) => {
@@ -334,11 +342,28 @@ pub fn k_scratchlen(case: &Case) -> Outcome {
     }
 }
 fn scratchlen<T: Real>(case: &Case) -> Outcome {
-    let fft = match crate::checks::obtain::<T>(case) {
+    // planned here (not through the shared transform cache) so that the construction hook sees exactly this request
+    let mut pl = match AnyPlanner::<T>::new(case.planner) {
+        Some(p) => p,
+        None => return Outcome::skip(format!("planner {:?} unavailable in this configuration", case.planner)),
+    };
+    let _ = rustfft::verif_hooks::take_dft_lens();
+    let fft = match catch(|| pl.plan(case.n, case.dir)) {
         Ok(f) => f,
-        Err(o) => return o,
+        Err(p) => return Outcome::bad(format!("planning n={} panicked: {} @ {}", case.n, p.msg, p.loc)),
     };
     let n = case.n;
+    // structural clause on what was BUILT (hook H3 records every naive `Dft` constructed on this thread), not on the reported plan
+    let built = rustfft::verif_hooks::take_dft_lens();
+    if let Some(k) = built.iter().copied().filter(|&k| k > 32).max() {
+        return Outcome::bad(format!(
+            "building the {:?} plan for n={} ({}) constructed a naive O(k^2) DFT of length {} > 32 (the reported plan text may not show it)",
+            case.planner,
+            n,
+            T::NAME,
+            k
+        ));
+    }
     let lens = [fft.get_inplace_scratch_len(), fft.get_outofplace_scratch_len(), fft.get_immutable_scratch_len()];
     let limit = 12 * n + 64;
     for (i, l) in lens.iter().enumerate() {
@@ -347,7 +372,7 @@ fn scratchlen<T: Real>(case: &Case) -> Outcome {
         }
     }
     let worst = *lens.iter().max().unwrap() as f64 / limit as f64;
-    Outcome::held(n >= 2).ratio(format!("scratch/(12n+64) {:?}", case.planner), worst)
+    Outcome::held(n >= 2).ratio(format!("scratch/(12n+64) {:?}", case.planner), worst).count("plans built with the naive-DFT construction hook armed", 1)
 }
 
 // ---------------------------------------------------------------------------------------------
@@ -494,11 +519,21 @@ fn histscratch<T: Real>(case: &Case) -> Outcome {
         None => return Outcome::skip(format!("planner {:?} unavailable in this configuration", case.planner)),
     };
     let mut worst = 0.0f64;
+    let _ = rustfft::verif_hooks::take_dft_lens();
     for (i, r) in reqs.iter().enumerate() {
         let f = match catch(|| pl.plan(r.n, r.dir)) {
             Ok(f) => f,
             Err(p) => return Outcome::bad(format!("request #{} (n={}, {:?}) panicked: {} @ {}", i, r.n, r.dir, p.msg, p.loc)),
         };
+        if let Some(k) = rustfft::verif_hooks::take_dft_lens().into_iter().filter(|&k| k > 32).max() {
+            return Outcome::bad(format!(
+                "building the {:?} plan for n={} after {:?} constructed a naive O(k^2) DFT of length {} > 32",
+                case.planner,
+                r.n,
+                reqs[..i].iter().map(|q| (q.n, q.dir)).collect::<Vec<_>>(),
+                k
+            ));
+        }
         let limit = 12 * r.n + 64;
         for (j, l) in [f.get_inplace_scratch_len(), f.get_outofplace_scratch_len(), f.get_immutable_scratch_len()].iter().enumerate() {
             if *l > limit {
@@ -511,4 +546,97 @@ fn histscratch<T: Real>(case: &Case) -> Outcome {
         }
     }
     Outcome::held(reqs.len() >= 2).ratio(format!("scratch/(12n+64) after history {:?}", case.planner), worst)
+}
+
+// ---------------------------------------------------------------------------------------------
+// kind "histops" (C05): the work clause on a planner WITH history. One operation-counting planner is fed a long sequence of
+// requests (p[0] = mode, p[1] = upper bound N, p[2] = lower bound); every returned transform is run once and its exact
+// operation count must respect 64*n*log2(n) whatever was planned before.
+//   mode 0: every n in lo..=N ascending        mode 1: descending
+//   mode 2: ascending over primes q, q-1, 2q, 2q+1, (q-1)/2 ... (the lengths whose plans can splice onto each other)
+//   mode 3: a seed-driven subsequence of lo..=N in random order, both directions mixed
+pub fn k_histops(case: &Case) -> Outcome {
+    let mode = case.pget(0);
+    let hi = case.pget(1).max(2) as usize;
+    let lo = (case.pget(2).max(2) as usize).min(hi);
+    if FftPlannerAvx::<Cnt>::new().is_ok() || FftPlannerSse::<Cnt>::new().is_ok() {
+        return Outcome::bad("a SIMD planner accepted the operation-counting element type");
+    }
+    let mut seq: Vec<(usize, Dir)> = vec![];
+    match mode {
+        0 => seq.extend((lo..=hi).map(|n| (n, case.dir))),
+        1 => seq.extend((lo..=hi).rev().map(|n| (n, case.dir))),
+        2 => {
+            for q in lo..=hi {
+                if crate::gen::is_prime(q as u64) {
+                    for m in [(q - 1) / 2, q - 1, q, 2 * q, 2 * q + 1] {
+                        if m >= 2 && m <= 2 * hi + 1 {
+                            seq.push((m, case.dir));
+                        }
+                    }
+                }
+            }
+        }
+        _ => {
+            let mut st = Stream(mix(case.input.seed, 0x415));
+            let count = (hi - lo + 1).min(1500);
+            for _ in 0..count {
+                let n = lo + st.below((hi - lo + 1) as u64) as usize;
+                let d = if st.below(4) == 0 { case.dir.other() } else { case.dir };
+                seq.push((n, d));
+                // neighbours are what splices: n+1, 2n, 2n+1 now and then
+                match st.below(6) {
+                    0 => seq.push((n + 1, d)),
+                    1 => seq.push((2 * n, d)),
+                    2 => seq.push((2 * n + 1, d)),
+                    _ => {}
+                }
+            }
+        }
+    }
+    let mut pl = match AnyPlanner::<Cnt>::new(case.planner) {
+        Some(p) => p,
+        None => return Outcome::skip("planner unavailable"),
+    };
+    let zero = Complex { re: Cnt(0.0), im: Cnt(0.0) };
+    let mut st = Stream(mix(case.input.seed, 77));
+    let mut worst = 0.0f64;
+    let mut worst_n = 0usize;
+    let mut measured = 0u64;
+    for (i, &(n, dir)) in seq.iter().enumerate() {
+        let fft = match catch(|| pl.plan(n, dir)) {
+            Ok(f) => f,
+            Err(p) => return Outcome::bad(format!("request #{} (n={}, {:?}) of a long planning history panicked: {} @ {}", i, n, dir, p.msg, p.loc)),
+        };
+        if fft.len() != n {
+            return Outcome::bad(format!("request #{} of a long planning history returned len()={} for n={}", i, fft.len(), n));
+        }
+        let entry = ENTRIES[(i + case.entry as usize) % 4];
+        let mut data: Vec<Complex<Cnt>> = (0..n).map(|_| Complex { re: Cnt(st.sym()), im: Cnt(st.sym()) }).collect();
+        let mut out = if result_in_out(entry) { vec![zero; n] } else { vec![] };
+        let mut scratch = vec![zero; adv_scratch(&*fft, entry)];
+        ops_reset();
+        if let Err(p) = catch(|| raw_call(&*fft, entry, &mut data, &mut out, &mut scratch)) {
+            return Outcome::bad(format!("well-shaped call panicked (n={}, request #{} of a long history): {} @ {}", n, i, p.msg, p.loc));
+        }
+        let c = ops_get();
+        let ops = (c[0] + c[1] + c[2]) as f64;
+        let limit = 64.0 * n as f64 * (n as f64).log2();
+        if ops > limit {
+            let tail: Vec<(usize, Dir)> = seq[i.saturating_sub(6)..i].to_vec();
+            return Outcome::bad(format!(
+                "portable transform of length {} performs {} additions/subtractions/multiplications per chunk via {:?}, more than 64*n*log2(n) = {:.0}, when planned as request #{} of history mode {} over {}..={} (preceding requests: ... {:?})",
+                n, ops, entry, limit, i, mode, lo, hi, tail
+            ));
+        }
+        if ops / limit > worst {
+            worst = ops / limit;
+            worst_n = n;
+        }
+        measured += 1;
+    }
+    Outcome::held(true)
+        .ratio(format!("ops/(64 n log2 n) with history (mode {})", mode), worst)
+        .count("transforms measured on planners with history", measured)
+        .label(format!("histops-mode:{} worst-n:{}", mode, worst_n))
 }
